@@ -123,6 +123,32 @@ def disciplined(body, local, depth=0, seen=None):
     return verdicts[0]
 
 
+CONVERTING = re.compile(r"Result::<T, E>::(map_err|or_else|unwrap_or_else|or)$")
+
+
+def converting_use(body, local, depth=0, seen=None):
+    """name of an adaptor that replaces the error of the Result held in `local` (followed through moves and
+    error-preserving adaptors), or None"""
+    seen = seen if seen is not None else set()
+    if local in seen or depth > 12 or local == 0:
+        return None
+    seen.add(local)
+    for kind, b, i, x in uses_of(body, local):
+        if kind == "arg" and i == 0:
+            n = cname(x["func"]) if "indirect" not in x["func"] else ""
+            if CONVERTING.search(n):
+                return n.split("::")[-1]
+            if ADAPTORS.search(n) and not x["dest"]["p"]:
+                r = converting_use(body, x["dest"]["l"], depth + 1, seen)
+                if r:
+                    return r
+        elif kind == "move" and not x["lhs"]["p"]:
+            r = converting_use(body, x["lhs"]["l"], depth + 1, seen)
+            if r:
+                return r
+    return None
+
+
 def check_match(body, local, bb):
     """Explicit match on a Result: the Err arm must reach a return on every path without passing an Ok assignment to _0."""
     t = body.term(bb)
@@ -201,11 +227,14 @@ def run(ctx):
                     nxt = p.blocks[i + 1]
                     zero_t = t["tgts"][t["vals"].index("0")] if "0" in t["vals"] else None
                     truth = nxt != zero_t
-                    if isinstance(v, tuple) and v[0] == "bin" and v[1] == "Eq" and T.is_const_int(v[3], 0) and \
+                    if isinstance(v, tuple) and v[0] == "bin" and v[1] in ("Eq", "Ne") and T.is_const_int(v[3], 0) and \
                             T.contains(v[2], lambda x: T.is_call(x, r"std::io::Read>::read$|^std::io::Read::read$")):
-                        conds["read==0"] = truth
+                        conds["read==0"] = truth if v[1] == "Eq" else not truth
                     if T.is_call(v, r"Vec::<T, A>::is_empty$") and T.is_field(T.peel(v[2][0]), "bytes"):
                         conds["bytes.is_empty"] = truth
+                    if isinstance(v, tuple) and v[0] == "bin" and v[1] in ("Eq", "Ne") and T.is_const_int(v[3], 0) and \
+                            T.is_call(v[2], r"Vec::<T, A>::len$") and T.is_field(T.peel(v[2][2][0]), "bytes"):
+                        conds["bytes.is_empty"] = truth if v[1] == "Eq" else not truth
             is_ok_none = rv[0] == "agg" and rv[3] == "Ok" and rv[4] and rv[4][0][0] == "agg" and rv[4][0][3] == "None"
             if is_ok_none:
                 n_none += 1
@@ -244,6 +273,23 @@ def run(ctx):
                     v, why = disciplined(fi, t["dest"]["l"])
                     if v == "ok":
                         guarded += 1
+        # the explicit form: `match self.rw.next()? { Some(p) => p, None => return Err(..) }` — every path leaving the
+        # None edge of a test of the reader's Ok payload ends in an error return
+        opt = [a for k_, a in prog.adts.items() if k_.endswith("option::Option")]
+        none_discr = "0"
+        for bb in range(fi.n):
+            if fi.is_cleanup(bb):
+                continue
+            t = fi.term(bb)
+            if t["k"] != "switch":
+                continue
+            v = fi.origin_op(t["discr"], bb, len(fi.blocks[bb]["stmts"]))
+            if not (isinstance(v, tuple) and v[0] == "discr" and isinstance(v[1], tuple) and v[1][0] == "okpayload" and T.is_call(v[1][1], "^" + re.escape(roles.f_read.path) + "$")):
+                continue
+            tg = t["tgts"][t["vals"].index(none_discr)] if none_discr in t["vals"] else t["otherwise"]
+            ends = [(p.end, classify_return(p) if p.end == "return" else None) for p in enumerate_paths(fi, start=tg, max_visits=1, limit=4000)]
+            if ends and all(e == "diverge" or (e == "return" and c == "err") or e == "unreachable" for e, c in ends):
+                guarded += 1
         ctx.ob("C19.ok-exactly-at-boundary", guarded == len(reads) and reads, "in the handshake %d of %d reader results turn a closed connection into an error" % (guarded, len(reads)),
                fn=fi.path, construct="handshake-eof")
 
@@ -263,7 +309,18 @@ def run(ctx):
                     ok = bool(m1 and m2 and m1.group(1) == m2.group(1))
                     ctx.ob("C19.shim-error-unchanged", ok, "a shim error is converted on the way out (%s -> %s)" % (ga[1], ga[0]), fn=b.path,
                            construct="residual-conversion", where=b.where(bb))
-        ctx.floor("C19.shim-error-unchanged", "`?` sites on shim results (%s)" % cfg, n, 6)
+        # every shim callback result: its error reaches `?` / the return slot / an explicit match, never an error-converting adaptor
+        n_sites = 0
+        for b in (roles.f_init, roles.f_run, roles.run_on):
+            for bb, t in b.calls():
+                if not effects.is_shim_call(t) or t["dest"]["p"] or not is_result_local(b, t["dest"]["l"]) or "MysqlShim<" not in b.local_ty(t["dest"]["l"]):
+                    continue
+                n_sites += 1
+                conv = converting_use(b, t["dest"]["l"])
+                ctx.ob("C19.shim-error-unchanged", conv is None, "the error of shim callback %s is converted by %s before it is returned" % (t["func"].get("name"), conv),
+                       fn=b.path, construct="shim-result", callee=t["func"].get("name"), where=b.where(bb))
+        ctx.floor("C19.shim-error-unchanged", "shim callback results followed (%s)" % cfg, n_sites, 6)
+        ctx.floor("C19.shim-error-unchanged", "`?` sites on shim results (%s)" % cfg, n, 1)
         # explicit `return Err(e)` after after_authentication
         n_exp = 0
         for p in enumerate_paths(fi, max_visits=1, limit=20000):
@@ -288,6 +345,13 @@ def run(ctx):
                 n_eb += 1
                 reach = b.reachable(e)
                 hit = sorted(reach & shim_bbs)
+                if hit:
+                    # confirm path-sensitively: the error value built here, returned by an (inlined) helper and
+                    # re-tested by the caller's `?`, cannot take the Ok arm
+                    try:
+                        hit = sorted({p.blocks[-1] for p in enumerate_paths(b, start=e, stop_at=set(hit), max_visits=1, limit=4000) if p.end == "stop"})
+                    except Exception:
+                        pass
                 ctx.ob("C19.no-callback-after-failure", not hit, "a shim callback (%s) is reachable after the error built at %s" % ([b.where(h) for h in hit], b.where(e)),
                        fn=b.path, construct="after-error", where=b.where(e), nontrivial=False)
             ctx.floor("C19.no-callback-after-failure", "error-building blocks in %s" % b.path, n_eb, 10)
